@@ -60,7 +60,7 @@ CHECKS["C05"] = dict(
     note=RSM_NOTE)
 CHECKS["C08"] = dict(
     category="model_checking", design_ref="5 C08", engine="tlc+smsim",
-    technique="TLA+ spec (RSM.tla) + TLC trace validation: state recovered from a snapshot = state saved, then same suffix applied next to the uninterrupted instance; compaction part: TLC evaluation (CompactionTrace) of restart observations of real NodeHosts",
+    technique="TLA+ spec (RSM.tla) + TLC trace validation: state recovered from a snapshot = state saved, then same suffix applied next to the uninterrupted instance; compaction part: TLC evaluation (CompactionTrace) of restart observations of real NodeHosts; snapshot job protocol (a recover job never runs while a save or a stream of the same replica runs): SnapshotJobs.tla model-checked by TLC and evaluated on executions of the real node / workerPool (spsim)",
     text="At random cuts of seeded entry streams a snapshot is saved by a real rsm.StateMachine (regular and concurrent, with and without compression) and recovered into a fresh or a lagging instance, which then applies the rest of the stream next to the uninterrupted instance; TLC requires the recovered projected state (user data, sessions incl. LRU order, membership, index, term) to equal the saved one and every later state/result of the twin to equal the specification's fold of the log. Compaction part (second engine, nhsim snap scenarios on real NodeHosts: slow concurrent snapshot saves under continuous writes with compaction overhead 0-2, regular / concurrent / on-disk state machines, power loss at seeded file-system operations, restart): TLC (CompactionTrace over Pipeline.tla LogContinuesSnapshot) requires that what the log store returns at every restart continues the recorded snapshot without a gap, and that the restart does not panic; exports with compaction options are part of the scenarios. Third engine (nhsim member mode, on-disk state machines): members join while nothing is written (the streamed snapshot has Index > OnDiskIndex), apply one more non-update entry, take a snapshot of their own and restart - they must come back with the membership the rule table gives.",
     note=RSM_NOTE + " Snapshot catch-up of lagging followers is also exercised at protocol level by the rsim traces of C02 (CanCompact / InstallSnapshot conformance) and end to end by the nhsim scenarios of C16.")
 
@@ -118,7 +118,7 @@ CHECKS["C04"] = dict(
     note=NH_NOTE + " Observation skew (save stamped late, egress stamped early) can only hide an ordering, never invent one.")
 CHECKS["C11"] = dict(
     engine="tlc+nhsim", category="exploration", design_ref="5 C11",
-    technique="TLA+ contract monitor (SMContract.tla) evaluated by TLC on Enter/Exit event streams of instrumented IStateMachine / IConcurrentStateMachine / IOnDiskStateMachine objects inside real NodeHosts; TLA+ life-cycle specification (Lifecycle.tla) model-checked exhaustively and every complete schedule TLC enumerates (sampled) replayed on the real exec engine through a gated nodeLoader (LifecycleTrace)",
+    technique="TLA+ contract monitor (SMContract.tla) evaluated by TLC on Enter/Exit event streams of instrumented IStateMachine / IConcurrentStateMachine / IOnDiskStateMachine objects inside real NodeHosts; TLA+ life-cycle specification (Lifecycle.tla) model-checked exhaustively and every complete schedule TLC enumerates (sampled) replayed on the real exec engine through a gated nodeLoader (LifecycleTrace); TLA+ specification of the snapshot job protocol (SnapshotJobs.tla) model-checked exhaustively (MCSnapshotJobs, three ablations refuted) and evaluated by TLC on executions of the real node / snapshotState / workerPool (spsim, SnapshotJobsTrace)",
     text="Every user state machine method emits Enter/Exit events (sequence number under one mutex as first/last statement: an overlap in the trace is a real overlap). Scenarios: the nhsim fault mix, plus contract scenarios with two shards sharing one snapshot worker, slow SaveSnapshot/Sync/PrepareSnapshot, continuous local and exported snapshot requests, shard stop/restart while snapshot jobs are pending, power loss + restart so that lagging replicas are streamed snapshots, periodic Sync every 15 ticks, and NodeHost.Close while requests are in flight. TLC checks per object: exclusive group never overlaps and is never called after Close; plain SM readers never overlap writers; Update indexes strictly increasing, above the recovered snapshot / Open index; every entry that reached Update anywhere reaches every object whose life covers its index exactly once; same entry at the same index everywhere. Life cycle: Lifecycle.tla has one action per critical section of startShard / stopNode / loadBucketNodes / workerPool.loadNodes / node.offloaded / closeWorker.handle; MCLifecycle proves (828 states) that the user state machine is closed at most once and nothing leaks, refutes the model without the destroyed() guard, and enumerates all 250 284 complete schedules of Start / Collect(w) / Proceed(w) / Stop / CloseHandle for the step, apply and snapshot-pool workers; a seeded sample (240 quick, 6 000 thorough) is replayed on the real engine (real workers, close pool, rsm.StateMachine + NativeSM, instrumented user state machine) with the nodeLoader as scheduler gate; closed twice / called after Close / panic is the verdict.",
     note=NH_NOTE + " Exploration level for the NodeHost scenarios: schedules are perturbed by seeded sleeps inside the callbacks, not enumerated. The life-cycle replay uses a skeleton node (no raft peer) and one replica object per schedule.")
 
@@ -193,6 +193,8 @@ def main():
              "kind_free_text": "TLC model checking of MCQuiesce / MCRateLimit + TLC trace evaluation of the real quiesceState and InMemRateLimiter"},
             {"name": "tlc+lcsim", "path": "/verif/lib/c11b.py", "serves_properties": ["C11"],
              "kind_free_text": "TLC model checking of MCLifecycle, enumeration of its complete schedules, replay of a seeded sample on the real exec engine (harness/root/lcsim_test.go) judged by LifecycleTrace"},
+            {"name": "tlc+spsim", "path": "/verif/lib/c11b.py", "serves_properties": ["C11", "C08"],
+             "kind_free_text": "TLC model checking of MCSnapshotJobs (snapshot job protocol between apply worker, snapshot worker pool and snapshot workers; ablations refuted) + TLC trace evaluation (SnapshotJobsTrace) of the real node / snapshotState / workerPool driven by harness/root/spsim_test.go with the pool's main loop gated at its nodeLoader"},
             {"name": "tlc+smsim", "path": "/verif/lib/rsmchecks.py", "serves_properties": ["C05", "C08", "C07"],
              "kind_free_text": "TLC model checking of MCRSM + TLC trace validation (RSMTrace) of real rsm.StateMachine instances driven by harness/rsm/smsim_test.go"},
             {"name": "tlc+lssim", "path": "/verif/lib/logstore.py", "serves_properties": ["C09", "C10"],
